@@ -24,7 +24,10 @@ func forPairs(p *Plan, shard int, f func(id int, it *Item, ea, eb *Entry)) {
 		}
 		if it.Mode == "paired" {
 			// behaviours of the DocEdit machine: a = initial state, b = final state, targets = intermediate states
-			for _, pr := range loadPairs(p.Universe, it.Family) {
+			for pi, pr := range loadPairs(p.Universe, it.Family) {
+				if !keep(p.Seed, it.Frac, it.Family, "paired", pi) {
+					continue
+				}
 				id++
 				if id%p.Shards == shard && (chunkN <= 1 || (id/p.Shards)%chunkN == chunkI) {
 					f(id, it, &Entry{D: pr.A, P: pr.Mids, NF: true}, &Entry{D: pr.B, P: pr.Mids, NF: true})
